@@ -15,6 +15,13 @@ pub struct C01;
 fn gen_dir(g: &mut Gen, allow_big: bool, budget: &mut i64, apis: &[&str]) -> Value {
     let n = g.range(0, 7);
     let mut chunks = Vec::new();
+    if g.chance(4) {
+        // a burst of very many very small chunks: hundreds of frames can sit in one read of the receiver
+        for _ in 0..g.range(120, 400) {
+            chunks.push(g.range(1, 12));
+        }
+        *budget -= chunks.iter().sum::<u64>() as i64;
+    }
     for _ in 0..n {
         let mut s = chunk_size(g, allow_big) as i64;
         if s > *budget {
